@@ -35,6 +35,7 @@
   the writer's obligations, checked on every generated TSIG case by the correspondence run.
 -/
 import QV.Proofs.ServerSafety
+import QV.Proofs.ServerRrlSafe
 
 namespace QV.C01
 open QV QV.Writer QV.Server QV.Reader QV.ServerSafety
@@ -66,6 +67,55 @@ theorem C01_response_is_finished_writer (W : WriterSafe) (cfg : Cfg) (hcfg : Cfg
   rcases handleMessage_cases W cfg hcfg tr now bufLen req henv (macLenOK_server hmacLenOK) with h' | ⟨w, b', mac, hi, hf, h'⟩
   · rw [h'] at h; cases h
   · rw [h'] at h; cases h; exact ⟨w, mac, hi, hf⟩
+
+/-! ### with response rate limiting enabled (`Server::set_rrl_params(Some(..))`) -/
+
+/-- **C01 for the handler with RRL**: model `QV.Server.handleMessageRrl` (lean/QV/Model/ServerRrl.lean)
+    = the handler, then `Rrl::process_response` on its `Context` (subject_to_rrl; category from the
+    extended RCODE; the name hashed: source of synthesis, else QNAME, else the root; Send / Slip =
+    `clear_rrs(); set_tc(true)` / Drop), then `finish`. For every configuration the API allows,
+    every valid RRL parameter set and **every** table state, `RandomState`, source address, instant
+    and `should_slip` outcome, it does not panic. -/
+def C01_rrl_full : Prop :=
+  ∀ (cfg : Cfg) (tr : Transport) (now bufLen : Nat) (req : Bytes) (rs : Rrl.RandomState) (rrl : Rrl.Rrl)
+    (src : Rrl.IpAddr) (tnow : Nat) (rnd : Bool), CfgWF cfg → EnvOK cfg tr now bufLen req →
+    rrl.params.Valid → handleMessageRrl cfg tr now bufLen req rs rrl src tnow rnd ≠ .panic
+
+/-- **C01 holds with RRL enabled**: the handler's ingredients of `C01_holds` (it hands RRL a writer
+    satisfying the writer invariant), C26 (`process_response` never panics, whatever the table
+    holds), the writer contract for the two calls of the Slip path, and `finish`. -/
+theorem C01_rrl : C01_rrl_full := by
+  intro cfg tr now bufLen req rs rrl src tnow rnd hcfg henv hv
+  obtain ⟨resp, rrl', h⟩ := handleMessageRrl_no_panic Writer.writerSafe cfg hcfg tr now bufLen req henv rs rrl hv
+    src tnow rnd
+  rw [h]; simp
+
+/-- the RRL-less handler is the same computation cut before RRL, followed by `finish` -/
+theorem C01_rrl_shares_the_handler (cfg : Cfg) (tr : Transport) (now bufLen : Nat) (req : Bytes) :
+    handleMessage cfg tr now bufLen req =
+      (match handleToContext cfg tr now bufLen req with
+       | .ok h => finishResponse h
+       | .err _ => .panic
+       | .panic => .panic) := handleMessage_eq_toContext cfg tr now bufLen req
+
+/-- **what RRL can do to a response**: nothing (not subject to RRL: the RRL-less response and an
+    untouched table; or admitted: the RRL-less response), suppress it (Drop), or replace it by
+    `finish` of the handler's writer after `clear_rrs(); set_tc(true)` (Slip): the question is kept,
+    ANCOUNT = NSCOUNT = 0, ARCOUNT counts only the OPT / TSIG pseudo-records `finish` appends. -/
+theorem C01_rrl_outcome (cfg : Cfg) (hcfg : CfgWF cfg) (tr : Transport) (now bufLen : Nat) (req : Bytes)
+    (henv : EnvOK cfg tr now bufLen req) (rs : Rrl.RandomState) (rrl : Rrl.Rrl) (src : Rrl.IpAddr)
+    (tnow : Nat) (rnd : Bool) (resp : Option Bytes) (rrl' : Rrl.Rrl)
+    (h : handleMessageRrl cfg tr now bufLen req rs rrl src tnow rnd = .ok (resp, rrl')) :
+    RrlOutcome cfg tr now bufLen req rrl resp rrl' :=
+  handleMessageRrl_outcome Writer.writerSafe cfg hcfg tr now bufLen req henv rs rrl src tnow rnd resp rrl' h
+
+/-- over TCP RRL changes nothing: the response of the RRL-less handler, the table untouched -/
+theorem C01_rrl_tcp_exempt (cfg : Cfg) (hcfg : CfgWF cfg) (now bufLen : Nat) (req : Bytes)
+    (henv : EnvOK cfg .tcp now bufLen req) (rs : Rrl.RandomState) (rrl : Rrl.Rrl) (hv : rrl.params.Valid)
+    (src : Rrl.IpAddr) (tnow : Nat) (rnd : Bool) :
+    ∃ resp, handleMessage cfg .tcp now bufLen req = .ok resp ∧
+      handleMessageRrl cfg .tcp now bufLen req rs rrl src tnow rnd = .ok (resp, rrl) :=
+  handleMessageRrl_tcp Writer.writerSafe cfg hcfg now bufLen req henv rs rrl hv src tnow rnd
 
 /-! ### L1 — the scan phase -/
 
